@@ -105,6 +105,10 @@ Section WithTables.
     declared ++ isort str_leb (skipn (length declared) all).
   Definition run_params (cases : list (((list str * option str) * list str) * list str)) : list N :=
     report (list_eqb str_eqb) params_obs
-           (fun x => [guard_F04c (fst (fst x)); guard_F20j (fst (fst x)) (snd (fst x));
+           (fun x => [guard_F04c (fst (fst x)); guard_F04d (fst (fst x)) (snd (fst x));
                       forallb has_alnum (fst (fst x) ++ snd x)]) cases.
+  (* loader: registered keys with the position of the raw schema whose content each holds; None = RuntimeError *)
+  Definition key_eqb (a b : str * nat) : bool := str_eqb (fst a) (fst b) && Nat.eqb (snd a) (snd b).
+  Definition run_schemas (cases : list (list str * option (list (str * nat)))) : list N :=
+    report (opt_eqb (list_eqb key_eqb)) build_keys (fun raw => [guard_F20k raw; guard_F20m raw]) cases.
 End WithTables.
